@@ -1,167 +1,270 @@
-"""C14 - include is textual splicing, resolved independently of the working directory."""
+"""C14 - include is textual splicing, resolved independently of the working directory.
+
+All rules are stated over the provenance dataflow of `bbverif.prov` (kinds of path values, reaching definitions, summaries of
+helpers / closures / attributes) and over path summaries of the reader loop; none of them looks at variable or helper names.
+The only anchors are the public entry points `assemble`, `cli_main` and the reader `read_lines` (the function that reads a
+file and calls itself for included files)."""
 import ast
 
 from ..core import Report, Finding, AnalysisError
 from ..facts import Facts
 from ..astutil import unparse, dotted, walk_no_nested
 from ..callgraph import CallGraph
-from ..prov import Prov
-from ..pathwalk import loop_paths, show, is_const, C
-from .c16 import reachable, getcwd_allowed
+from ..prov import Prov, DIRKINDS, coarse
+from ..pathwalk import loop_paths, MUTATORS
+from ..immsites import find_all
 
 LEVEL = 'other'
+BAD = {'RawToken', 'Literal'}
+UNCLASSIFIED = {'Unknown', 'ObjAttrs', 'CliArgs'}
 
 
-def check_sinks(rep, facts, cg, pv, rule):
-    reach = sorted(reachable(cg, 'assemble'))
+def stmt_of(node):
+    cur = node
+    while cur is not None and not isinstance(cur, ast.stmt):
+        cur = getattr(cur, '_parent', None)
+    return cur if cur is not None else node
+
+
+def classify_sink(pv, q, name, arg):
+    """('ok' | 'bad' | 'unknown', kinds) for the path argument of a filesystem call."""
+    ks = set(pv.kinds(arg, q)) - {'NoneK'}
+    if ks & BAD:
+        return 'bad', ks
+    if ks & UNCLASSIFIED or not ks:
+        return 'unknown', ks
+    return 'ok', ks
+
+
+def check_sinks(rep, facts, cg, pv, rule, reach):
     sinks = pv.sinks(reach)
     rep.analysed['filesystem sinks reachable from assemble'] = len(sinks)
     for q, node, name, arg in sinks:
-        k = pv.kind(arg, q)
-        ok = k in ('Resolved', 'UserGiven')
-        rep.check(ok, rule, '{}: {}({}) receives a {} path'.format(q, name, unparse(arg), k),
-                  lambda q=q, node=node, name=name, arg=arg, k=k: Finding(rule, q, node,
-                                                                          '{}({}) is given a path of kind {}: text taken from the source line is resolved against the process working directory, '
-                                                                          'not against the including file or the -i directories'.format(name, unparse(arg), k), line=node.lineno))
+        verdict, ks = classify_sink(pv, q, name, arg)
+        if verdict == 'unknown':
+            raise AnalysisError('{}: the path given to {}({}) could not be classified (kinds {}): no verdict'.format(
+                q, name, unparse(arg), sorted(ks) or ['none']))
+        k = coarse(ks)
+        rep.check(verdict == 'ok', rule, '{}: {}({}) receives a {} path'.format(q, name, unparse(arg), k),
+                  lambda q=q, node=node, name=name, arg=arg, ks=ks: Finding(
+                      rule, q, node, '{}({}) is given a path of kind {}: text taken from the source line (or a literal) is resolved against the process '
+                      'working directory, not against the including file or the -i directories'.format(name, unparse(arg), '/'.join(sorted(ks & BAD))),
+                      line=node.lineno))
     for q in reach:
         for n in walk_no_nested(cg.funcs[q]):
             if isinstance(n, ast.Call) and dotted(n.func) == 'os.getcwd':
-                rep.check(getcwd_allowed(cg.funcs[q], n), rule + '.cwd', '{}: os.getcwd() only when the input is a source string'.format(q),
+                rep.check(pv.on_source_string_branch(q, n), rule + '.cwd', '{}: os.getcwd() only when the input is a source string'.format(q),
                           lambda q=q, n=n: Finding(rule + '.cwd', q, n, 'the working directory takes part in resolving includes of a *file*', line=n.lineno))
     return sinks
 
 
-def check_reader(rep, facts, cg, pv):
+def caller_object_params(pv, cg, reach, seeds):
+    """(qual, param) pairs whose argument may be the very list object the API caller passed (by-reference flow through calls)."""
+    seen = set(seeds)
+    todo = list(seeds)
+    while todo:
+        q, p = todo.pop()
+        for n in walk_no_nested(cg.funcs[q]):
+            if not isinstance(n, ast.Call):
+                continue
+            for callee in cg.callees(q, n):
+                if callee not in cg.funcs:
+                    continue
+                for param, args in pv.bind_call(callee, n).items():
+                    if any(pv.same_object(a, q, p) for a in args) and (callee, param) not in seen:
+                        seen.add((callee, param))
+                        todo.append((callee, param))
+    return seen
+
+
+def check_reader(rep, facts, cg, pv, reach):
     fn = facts.funcs.get('read_lines')
     if fn is None:
         raise AnalysisError('anchor vanished: read_lines')
-    # R14.2 recursion
-    rec = [n for n in ast.walk(fn) if isinstance(n, ast.Call) and dotted(n.func) == 'read_lines']
-    rep.analysed['recursive include calls'] = len(rec)
-    params = [a.arg for a in fn.args.args]
-    for c in rec:
-        k = pv.kind(c.args[0], 'read_lines') if c.args else 'Unknown'
-        kws = {kw.arg: kw.value for kw in c.keywords}
-        inc = kws.get('include')
-        dirs = kws.get('include_dirs')
-        # the search list handed down must be the caller's own include_dirs, untouched: a list that already holds this file's
-        # directory would make nested files search their ancestors' directories
-        dirs_param = next((a.arg for a in fn.args.args + fn.args.kwonlyargs if a.arg == 'include_dirs'), None)
-        rebound = [n for n in ast.walk(fn) if isinstance(n, ast.Name) and n.id == dirs_param and isinstance(n.ctx, ast.Store)]
-        mutated = [n for n in ast.walk(fn) if isinstance(n, ast.Call) and isinstance(n.func, ast.Attribute) and isinstance(n.func.value, ast.Name)
-                   and n.func.value.id == dirs_param and n.func.attr in ('append', 'extend', 'insert', 'remove', 'pop', 'clear', 'sort', 'reverse')]
-        mutated += [n for n in ast.walk(fn) if isinstance(n, ast.AugAssign) and isinstance(n.target, ast.Name) and n.target.id == dirs_param]
-        untouched = dirs is not None and isinstance(dirs, ast.Name) and dirs.id == dirs_param and not rebound and not mutated
-        ok = k == 'Resolved' and isinstance(inc, ast.Constant) and inc.value is True and untouched
-        rep.check(ok, 'R14.2.recursion', 'included file is read by its resolved path, include=True, same include_dirs',
-                  lambda c=c, k=k: Finding('R14.2.recursion', 'read_lines', c,
-                                           'the recursive read passes a {} path / does not pass include=True / changes include_dirs: nested includes are not resolved like top-level ones'.format(k), line=c.lineno))
-    # adjacent directory derived from the including file's path
-    dirs_built = [n for n in ast.walk(fn) if isinstance(n, ast.Call) and isinstance(n.func, ast.Attribute) and n.func.attr in ('append', 'add', 'insert')
-                  and isinstance(n.func.value, ast.Name) and 'dirs' in n.func.value.id]
-    good = False
-    for n in dirs_built:
-        if n.args and pv.kind(n.args[0], 'read_lines') == 'Dir':
-            # must be dirname(abspath(<the file being read>)) on the path branch
-            defs = [st for st in ast.walk(fn) if isinstance(st, ast.Assign) and isinstance(st.targets[0], ast.Name) and st.targets[0].id == unparse(n.args[0])]
-            exprs = [unparse(d.value) for d in defs]
-            if any('os.path.dirname(os.path.abspath({}))'.format(params[0]) == e for e in exprs):
-                good = True
-    rep.check(good, 'R14.2.adjacent', 'the directory of the including file is always searched',
-              lambda: Finding('R14.2.adjacent', 'read_lines', fn, 'the search path does not contain the directory of the file being read', line=fn.lineno))
-    # the search list starts from the caller's include_dirs (copied, never mutated in place)
-    cur = [st for st in ast.walk(fn) if isinstance(st, ast.Assign) and isinstance(st.targets[0], ast.Name) and 'dirs' in st.targets[0].id]
-    copied = any('include_dirs' in unparse(st.value) and ('deepcopy' in unparse(st.value) or 'list(' in unparse(st.value) or 'set(' in unparse(st.value) or 'tuple(' in unparse(st.value) or '+' in unparse(st.value) or '[:]' in unparse(st.value)) for st in cur)
-    rep.check(copied, 'R14.2.dirs-copied', 'the per-file search list is a copy of include_dirs',
-              lambda: Finding('R14.2.dirs-copied', 'read_lines', cur[0] if cur else fn, 'the caller\'s include_dirs list is extended in place: directories leak from one file to the next', line=fn.lineno))
-    # lookup: first existing join(dir, name) in order
-    lk = cg.funcs.get('read_lines.lookup')
-    if lk is not None:
-        rets = [n for n in ast.walk(lk) if isinstance(n, ast.Return) and n.value is not None and not (isinstance(n.value, ast.Constant) and n.value.value is None)]
-        k = [pv.kind(r.value, 'read_lines.lookup') for r in rets]
-        rep.check(bool(rets) and all(x == 'Resolved' for x in k), 'R14.1.lookup', 'lookup returns join(search dir, name)',
-                  lambda: Finding('R14.1.lookup', 'read_lines.lookup', rets[0] if rets else lk, 'the include search returns a path of kind {}'.format(k), line=lk.lineno))
+    a = fn.args
+    pos = [x.arg for x in getattr(a, 'posonlyargs', []) + a.args]
+    all_params = pos + [x.arg for x in a.kwonlyargs]
+    if not pos:
+        raise AnalysisError('read_lines takes no positional path parameter')
+    path_param = pos[0]
+    flag_params = [p for p in all_params if isinstance(pv.default_of(fn, p), ast.Constant) and pv.default_of(fn, p).value is False]
+    dir_params = [p for p in all_params if 'Dir' in pv.param_kinds('read_lines', p)]
+    if not dir_params:
+        raise AnalysisError('read_lines: no parameter receives the caller\'s include directories')
+
+    # R14.2 recursion: the included file is read by the path the search returned, as a file, with the caller's own -i list
+    n_rec = 0
+    for q in sorted(pv.reach('read_lines')):
+        for c in walk_no_nested(cg.funcs[q]):
+            if not (isinstance(c, ast.Call) and 'read_lines' in cg.callees(q, c)):
+                continue
+            n_rec += 1
+            bound = pv.bind_call('read_lines', c)
+            problems = []
+            ks = set()
+            for arg in bound.get(path_param, []):
+                ks |= pv.kinds(arg, q)
+            ks -= {'NoneK'}
+            if ks & UNCLASSIFIED and not ks & BAD:
+                raise AnalysisError('{}: the path handed to the recursive read could not be classified ({})'.format(q, sorted(ks)))
+            if ks != {'Resolved'}:
+                problems.append('passes a {} path'.format('/'.join(sorted(ks)) or 'missing'))
+            for p in flag_params:
+                vals = bound.get(p, [])
+                if not (vals and all(isinstance(v, ast.Constant) and v.value is True for v in vals)):
+                    problems.append('does not pass {}=True (an included path must be read as a file)'.format(p))
+            for p in dir_params:
+                dk = set()
+                for arg in bound.get(p, []):
+                    dk |= pv.kinds(arg, q)
+                dk -= {'NoneK'}
+                if dk & UNCLASSIFIED:
+                    raise AnalysisError('{}: the directory list handed to the recursive read could not be classified ({})'.format(q, sorted(dk)))
+                if 'Dir' not in dk:
+                    problems.append('does not hand the caller\'s include directories down ({} is {})'.format(p, '/'.join(sorted(dk)) or 'None'))
+                elif dk - {'Dir'}:
+                    problems.append('hands down a directory list that also holds {} (directories of this file leak into nested includes)'.format(
+                        '/'.join(sorted(dk - {'Dir'}))))
+            rep.check(not problems, 'R14.2.recursion', '{}: included file is read by its resolved path, as a file, with the caller\'s include directories'.format(q),
+                      lambda c=c, q=q, problems=problems: Finding('R14.2.recursion', q, c,
+                                                                  'the recursive read ' + '; '.join(problems) + ': nested includes are not resolved like top-level ones', line=c.lineno))
+    rep.analysed['recursive include calls'] = n_rec
+
+    # R14.2.adjacent: every include search ranges over the -i directories and the directory of the including file
+    n_search = 0
+    for q in reach:
+        for n in walk_no_nested(cg.funcs[q]):
+            if isinstance(n, ast.Call) and dotted(n.func) == 'os.path.join' and n.args and not isinstance(n.args[0], ast.Starred):
+                ks = set(pv.kinds(n.args[0], q)) - {'NoneK'}
+                if not ks & DIRKINDS:
+                    continue
+                n_search += 1
+                missing = [k for k in ('Dir', 'AdjDir') if k not in ks]
+                rep.check(not missing, 'R14.2.adjacent', '{}: the search ranges over the -i directories and the directory of the including file'.format(q),
+                          lambda q=q, n=n, ks=ks, missing=missing: Finding(
+                              'R14.2.adjacent', q, n, 'the include search joins the name with directories of kind {} only: {} not searched'.format(
+                                  '/'.join(sorted(ks)), ' and '.join({'Dir': 'the -i directories are', 'AdjDir': 'the directory of the file being read is'}[m] for m in missing)),
+                              line=n.lineno))
+    rep.analysed['include search sites'] = n_search
+
+    # R14.2.dirs-copied: the list object the API caller passed is never changed in place
+    shared = caller_object_params(pv, cg, reach, [('assemble', p) for p in pv.params(cg.funcs['assemble'])
+                                                     if 'Dir' in pv.param_kinds('assemble', p)])
+    muts = []
+    for q, p in sorted(shared):
+        for m in pv.inplace_mutations(q, p):
+            muts.append((q, p, m))
+    for q, p, m in muts:
+        rep.fail(Finding('R14.2.dirs-copied', q, stmt_of(m), 'the caller\'s include_dirs list is changed in place ({}): directories leak from one file / one '
+                         'assemble() call to the next'.format(unparse(m)[:80]), line=m.lineno), instance='{} {}'.format(q, unparse(m)[:60]))
+    if not muts:
+        rep.ok('R14.2.dirs-copied', 'the caller\'s include directory list is only read ({} by-reference uses followed)'.format(len(shared)))
+
     # R14.3 splice in place
+    result = None
+    for st in fn.body:
+        if isinstance(st, ast.Return) and isinstance(st.value, ast.Name):
+            result = st.value.id
+    if result is None:
+        raise AnalysisError('read_lines: the returned list is not a local variable')
     _, loop, paths = loop_paths(facts, fn)
     n_inc = 0
+    is_result = lambda v: v in (('lv', result), ('name', result))
     for p in paths:
         if p.end == 'raise':
             continue
-        apps = [e for e in p.events if e[0] == 'mcall' and e[2] in ('append', 'extend', 'insert') and e[1][0] in ('lv', 'name')]
-        calls = [e for e in p.events if e[0] == 'value' and e[1][0] == 'call' and e[1][1] == 'read_lines']
-        if calls:
+        recs = []
+        for ev in p.events:
+            for part in ev[1:]:
+                for r in find_all(part, lambda t: t[0] == 'call' and t[1] == 'read_lines'):
+                    if r not in recs:
+                        recs.append(r)
+        muts = [e for e in p.events if (e[0] == 'mcall' and e[2] in MUTATORS and is_result(e[1])) or (e[0] == 'aug' and e[1] == result)]
+        node = muts[0][-1] if muts else (p.end_node or loop)
+        if recs:
             n_inc += 1
-            ok = len(apps) == 1 and apps[0][2] == 'extend' and apps[0][3][0] == calls[0][1]
-            rep.check(ok, 'R14.3.splice', 'include path: lines.extend(lines of the included file) at the position of the include line',
-                      lambda p=p: Finding('R14.3.splice', 'read_lines', calls[0][2], 'the lines of an included file are not spliced in at the position of the include line', line=calls[0][2].lineno))
-        elif p.end in ('fallthrough',) and apps:
-            ok = all(a[2] == 'append' for a in apps) and len(apps) == 1
+            ok = len(recs) == 1 and len(muts) == 1 and (
+                (muts[0][0] == 'mcall' and muts[0][2] == 'extend' and len(muts[0][3]) == 1 and strip_res(muts[0][3][0]) == recs[0])
+                or (muts[0][0] == 'aug' and muts[0][2] == '+' and strip_res(muts[0][3]) == recs[0]))
+            rep.check(ok, 'R14.3.splice', 'include path [{}]: the lines of the included file, and nothing else, are added at the position of the include line'.format(p.cond_text()[-60:]),
+                      lambda node=node: Finding('R14.3.splice', 'read_lines', node, 'the lines of an included file are not spliced in (once, alone) at the position of the include line',
+                                                line=getattr(node, 'lineno', fn.lineno)))
+        elif muts:
+            ok = len(muts) == 1 and muts[0][0] == 'mcall' and muts[0][2] == 'append'
             rep.check(ok, 'R14.3.splice', 'ordinary line: appended once, in order',
-                      lambda: Finding('R14.3.splice', 'read_lines', apps[0][5], 'source lines are not appended exactly once in order', line=apps[0][5].lineno), nontrivial=False)
+                      lambda node=node: Finding('R14.3.splice', 'read_lines', node, 'source lines are not appended exactly once in order', line=getattr(node, 'lineno', fn.lineno)),
+                      nontrivial=False)
     rep.analysed['include paths through the reader loop'] = n_inc
-    bad = [n for n in ast.walk(fn) if isinstance(n, ast.Call) and isinstance(n.func, ast.Attribute) and n.func.attr in ('insert', 'sort', 'reverse')
-           and isinstance(n.func.value, ast.Name) and n.func.value.id == 'lines']
-    rep.check(not bad, 'R14.3.order', 'lines list built by append/extend only',
-              lambda: Finding('R14.3.order', 'read_lines', bad[0], 'the line list is reordered', line=bad[0].lineno), nontrivial=False)
-    # include detection strips comments / quotes before resolving (name only)
-    # the include line itself is not kept
-    for p in paths:
-        calls = [e for e in p.events if e[0] == 'value' and e[1][0] == 'call' and e[1][1] == 'read_lines']
-        if calls:
-            kept = [e for e in p.events if e[0] == 'mcall' and e[2] == 'append' and e[3] and e[3][0][0] == 'new' and e[3][0][1] == 'Line']
-            rep.check(not kept, 'R14.3.splice', 'the include line itself contributes no line',
-                      lambda: Finding('R14.3.splice', 'read_lines', calls[0][2], 'the include line is kept in addition to the included text', line=calls[0][2].lineno), nontrivial=False)
+    bad = [n for n in ast.walk(fn) if isinstance(n, ast.Call) and isinstance(n.func, ast.Attribute) and n.func.attr in ('insert', 'sort', 'reverse', 'pop', 'remove', 'clear')
+           and isinstance(n.func.value, ast.Name) and n.func.value.id == result]
+    bad += [n for n in ast.walk(loop) if isinstance(n, ast.Name) and isinstance(n.ctx, ast.Store) and n.id == result and not isinstance(getattr(n, '_parent', None), ast.AugAssign)]
+    rep.check(not bad, 'R14.3.order', 'the line list is built by append/extend only and never rebound inside the loop',
+              lambda: Finding('R14.3.order', 'read_lines', stmt_of(bad[0]), 'the line list is reordered / rebuilt inside the reader loop', line=bad[0].lineno), nontrivial=False)
 
 
-def check_cli(rep, facts):
-    fn = facts.funcs.get('cli_main')
-    if fn is None:
+def strip_res(v):
+    while isinstance(v, tuple) and v and v[0] == 'res':
+        v = v[3]
+    return v
+
+
+def check_cli(rep, facts, cg, pv):
+    if 'cli_main' not in cg.funcs:
         raise AnalysisError('anchor vanished: asm.cli_main')
-    src = unparse(fn)
-    calls = [n for n in ast.walk(fn) if isinstance(n, ast.Call) and dotted(n.func) == 'assemble']
+    calls = []
+    for q in sorted(pv.reach('cli_main')):
+        for n in walk_no_nested(cg.funcs[q]):
+            if isinstance(n, ast.Call) and 'assemble' in cg.callees(q, n):
+                calls.append((q, n))
     if not calls:
-        raise AnalysisError('anchor vanished: assemble call in cli_main')
-    c = calls[0]
-    arg0 = c.args[0]
-    defs = [st.value for st in ast.walk(fn) if isinstance(st, ast.Assign) and isinstance(st.targets[0], ast.Name) and isinstance(arg0, ast.Name) and st.targets[0].id == arg0.id]
-    ok = bool(defs) and all(isinstance(d, ast.Call) and dotted(d.func) == 'os.path.abspath' for d in defs)
-    rep.check(ok, 'R14.4.cli', 'the input path is made absolute before assembling',
-              lambda: Finding('R14.4.cli', 'cli_main', c, 'the input path is handed to assemble() without os.path.abspath', line=c.lineno))
-    apps = [n for n in ast.walk(fn) if isinstance(n, ast.Call) and isinstance(n.func, ast.Attribute) and n.func.attr == 'append'
-            and isinstance(n.func.value, ast.Name) and n.func.value.id == 'include_dirs']
-    for a in apps:
-        arg = a.args[0]
-        good = isinstance(arg, ast.Call) and dotted(arg.func) == 'os.path.abspath'
-        if isinstance(arg, ast.Name):
-            d2 = [st.value for st in ast.walk(fn) if isinstance(st, ast.Assign) and isinstance(st.targets[0], ast.Name) and st.targets[0].id == arg.id]
-            good = bool(d2) and all('__file__' in unparse(x) and 'abspath' in unparse(x) or ('os.path.join' in unparse(x)) for x in d2)
-            if good:
-                roots = [st.value for st in ast.walk(fn) if isinstance(st, ast.Assign) and isinstance(st.targets[0], ast.Name) and st.targets[0].id == 'root']
-                good = bool(roots) and all('__file__' in unparse(x) and 'abspath' in unparse(x) for x in roots)
-        rep.check(good, 'R14.4.cli', 'include dir `{}` is absolute'.format(unparse(arg)),
-                  lambda a=a: Finding('R14.4.cli', 'cli_main', a, 'an include directory is stored relative to the working directory (no abspath / not derived from __file__)', line=a.lineno))
-    rep.analysed['cli include dir sources'] = len(apps)
+        raise AnalysisError('anchor vanished: assemble call reachable from cli_main')
+    afn = cg.funcs['assemble']
+    path_param = pv.params(afn)[0]
+    dir_params = [p for p in pv.params(afn) if 'Dir' in pv.param_kinds('assemble', p)]
+    n_sources = 0
+    for q, c in calls:
+        bound = pv.bind_call('assemble', c)
+        for arg in bound.get(path_param, []):
+            ok = pv.is_abs(arg, q)
+            rep.check(ok, 'R14.4.cli', '{}: the input path is made absolute before assembling'.format(q),
+                      lambda c=c, q=q: Finding('R14.4.cli', q, c, 'the input path is handed to assemble() without os.path.abspath', line=c.lineno))
+        for p in dir_params:
+            for arg in bound.get(p, []):
+                sources = []
+                pv.is_abs(arg, q, sources)
+                n_sources += len(sources)
+                for node, ok in sources:
+                    rep.check(ok, 'R14.4.cli', 'include dir `{}` is absolute'.format(unparse(node)),
+                              lambda node=node, q=q: Finding('R14.4.cli', q, stmt_of(node), 'an include directory is stored relative to the working directory '
+                                                             '(`{}` is neither os.path.abspath(...) nor built from an absolute directory)'.format(unparse(node)[:80]), line=node.lineno))
+    rep.analysed['cli include dir sources'] = n_sources
 
 
 def run(repo, tier):
     facts = Facts(repo.asm)
     rep = Report('C14', LEVEL,
-                 'cwd-sensitivity effect analysis: every filesystem call reachable from assemble() is classified by the provenance kind of '
-                 'its path argument (Resolved = search dir joined with the name; UserGiven = the caller\'s own path; RawToken = text from '
-                 'the source line); only the first two may reach a sink, and os.getcwd() may be consulted only on the source-string branch.  '
-                 'The recursive read passes the resolved path, include=True and unchanged include_dirs; the adjacent directory is derived '
-                 'from the including file at each depth; included lines are spliced at the position of the include line (append/extend only); '
-                 'the CLI makes the input path and every -i directory absolute.')
+                 'cwd-sensitivity effect analysis: every filesystem call reachable from assemble() (call edges, closures, functions used as '
+                 'values) is classified by the provenance kinds of its path argument (Resolved = search dir joined with the name; UserGiven = '
+                 'the caller\'s own path; RawToken = text cut out of a source line; Literal), computed by a reaching-definitions dataflow with '
+                 'interprocedural summaries; only the first two may reach a sink, and os.getcwd() may be consulted only where '
+                 'os.path.exists(<caller\'s input>) was false.  The recursive read passes the resolved path, as a file, and a directory list '
+                 'holding the caller\'s -i directories only; every include search ranges over the -i directories and the directory of the '
+                 'including file; the caller\'s list object is never changed in place; included lines are spliced at the position of the '
+                 'include line (append/extend only); the CLI hands assemble() an absolute input path and absolute directories.')
     rep.trusted_base = ['CPython ast', 'bbverif.prov kind rules', 'bbverif.callgraph / pathwalk']
     rep.not_decided = ['equality of the resulting binaries / labels / constants (follows from splice order + purity of later passes, C16, not re-proved end to end)',
                        'which directory wins when the same name exists in several']
     cg = CallGraph(facts)
     pv = Prov(facts, cg)
-    check_sinks(rep, facts, cg, pv, 'R14.1.provenance')
-    check_reader(rep, facts, cg, pv)
-    check_cli(rep, facts)
+    if 'assemble' not in cg.funcs:
+        raise AnalysisError('anchor vanished: assemble')
+    reach = sorted(pv.reach('assemble'))
+    check_sinks(rep, facts, cg, pv, 'R14.1.provenance', reach)
+    check_reader(rep, facts, cg, pv, reach)
+    check_cli(rep, facts, cg, pv)
     rep.floor('filesystem sinks reachable from assemble', 5)
     rep.floor('recursive include calls', 1)
+    rep.floor('include search sites', 1)
     rep.floor('include paths through the reader loop', 1)
     rep.floor('cli include dir sources', 2)
     return rep
